@@ -1,0 +1,7 @@
+//go:build !verif
+
+package timed
+
+import "time"
+
+func verifPollHook(time.Time) {}
